@@ -156,3 +156,8 @@ BOUNDED = [FromNotes()]
 def witness_search(tier, seed):
     r = FromNotes().run("quick", seed)
     return r["failures"][0] if r["failures"] else None
+
+
+# supplier units (see props/suppliers.py): reading back goes through NoteData.__iter__ / _iter_measure
+from props import suppliers as _S   # noqa: E402
+UNITS = _S.extend(UNITS, _S.note_readers())
